@@ -48,18 +48,31 @@ func init() {
 	props["C07"] = &Prop{Gen: genC07, Exec: execC07}
 }
 
+// scribbleCap: a caller owns every slice a function returned to it - it may append to it and overwrite it up to its
+// capacity. If the result shared memory with internal state (a look-up table, a cached buffer) or with another result,
+// the cases executed afterwards in this process come out differently.
+func scribbleCap(b []byte) {
+	b = b[:cap(b)]
+	for i := range b {
+		b[i] = 0xEE
+	}
+}
+
 func execC07(c Case) string {
 	a := c.Args
 	switch c.Op {
 	case "b58enc":
 		return hs(base58.Encode(unhx(a[0])))
 	case "b58dec":
-		return hx(base58.Decode(string(unhx(a[0]))))
+		d := base58.Decode(string(unhx(a[0])))
+		defer scribbleCap(d)
+		return hx(d)
 	case "b58rt":
 		e := base58.Encode(unhx(a[0]))
 		return hs(e) + " " + hx(base58.Decode(e))
 	case "b58sr":
 		d := base58.Decode(string(unhx(a[0])))
+		defer scribbleCap(d)
 		return hx(d) + " " + hs(base58.Encode(d))
 	case "chkenc":
 		return hs(base58.CheckEncode(unhx(a[1]), byte(atoi(a[0]))))
@@ -72,6 +85,7 @@ func execC07(c Case) string {
 		} else if err != nil {
 			return "err:other"
 		}
+		defer scribbleCap(p)
 		return "ok:" + itoa(int(v)) + ":" + hx(p)
 	case "cb":
 		return cbObs(bech32.ConvertBits(unhx(a[3]), uint8(atoi(a[0])), uint8(atoi(a[1])), a[2] == "1"))
@@ -92,6 +106,7 @@ func execC07(c Case) string {
 		if err != nil {
 			return bechErr(err)
 		}
+		defer scribbleCap(d)
 		return "ok:" + hs(h) + ":" + hx(d)
 	case "pure":
 		// pure <fn> <spare> <hex data> [hrp | from to pad | version]
@@ -157,6 +172,18 @@ func genC07(r *Rng, tier string, emit func(Case)) {
 		sl = 3
 	}
 	recs(nil, sl)
+	// Base58: very long runs of leading zero bytes / leading '1' characters (a run length kept in one byte wraps at 256)
+	for _, z := range []int{254, 255, 256, 257, 300, 511, 512, 513} {
+		e("b58rt", "zeros", hx(append(make([]byte, z), 1, 2)))
+		e("b58rt", "zeros", hx(make([]byte, z)))
+		e("b58sr", "ones", hx(append([]byte(strings.Repeat("1", z)), '2', 'a')))
+	}
+	// Base58Check: every payload length 0..80 (fixed-size buffers around 32 and 64 bytes)
+	for l := 0; l <= 80; l++ {
+		pl := r.Bytes(l)
+		e("chkenc", "lens", itoa(r.Intn(256)), hx(pl))
+		e("chkdec", "lens", hs(base58.CheckEncode(pl, byte(l))))
+	}
 	// bech32.Encode: every byte value as a data symbol, alone and at the first / middle / last position of valid
 	// 5-bit data (the boundary 31 | 32 of the alphabet guard, and values whose low five bits are a valid symbol)
 	for v := 0; v < 256; v++ {
@@ -212,6 +239,14 @@ func genC07(r *Rng, tier string, emit func(Case)) {
 		e("chkenc", "rand", itoa(ver), hx(pl))
 		enc := base58.CheckEncode(pl, byte(ver))
 		e("chkdec", "valid", hs(enc))
+		if i%4 == 0 {
+			// the same string wrapped in white space or other bytes outside the alphabet
+			for _, t := range []string{" ", "\t", "\n", "\r\n", "\x00", "0"} {
+				e("chkdec", "wrapped", hs(t+enc))
+				e("chkdec", "wrapped", hs(enc+t))
+				e("chkdec", "wrapped", hs(t+enc+t))
+			}
+		}
 		// near valid: corrupt one byte of decoded payload (checksum then fails), or short
 		dec := base58.Decode(enc)
 		k := r.Intn(len(dec))
@@ -264,6 +299,13 @@ func genC07(r *Rng, tier string, emit func(Case)) {
 		s0, err := bech32.Encode(string(hrp), append([]byte{}, data...))
 		if err == nil {
 			e("bechdec", "valid", hs(s0))
+			// a valid string followed / preceded by further characters (foreign ones, alphabet ones, white space)
+			if i%4 == 0 {
+				for _, t := range []string{"b", "~x", "q", " ", "\n", "\x00", "1q"} {
+					e("bechdec", "trail", hs(s0+t))
+					e("bechdec", "lead", hs(t+s0))
+				}
+			}
 			// every single bit of the six checksum symbols flipped (quick: one symbol per case, all five bits)
 			if len(s0) >= 6 {
 				const cs = "qpzry9x8gf2tvdw0s3jn54khce6mua7l"
